@@ -65,6 +65,18 @@ def table_of(gpr, genes):
     return [bool(gpr.eval(set(ko))) for ko in ref_gpr.subsets(genes)]
 
 
+ROUTE = ["text"]
+
+# rules in which the same sub-expression occurs under two different parents (a converter that shares nodes turns
+# them into a graph, which in-place editing then visits twice)
+SHARED = [
+    ("and", ("or", ("and", "g1", "g2"), "g3"), ("or", ("and", "g1", "g2"), "g4")),
+    ("or", ("and", ("or", "g1", "g2"), "g3"), ("and", ("or", "g1", "g2"), "g4")),
+    ("and", ("or", ("and", "g1", "g2"), "g3"), ("or", ("and", "g2", "g1"), "g3", "g4")),
+    ("or", ("and", ("or", "g1", "g2"), ("or", "g3", "g4")), ("and", ("or", "g1", "g2"), "g5")),
+]
+
+
 def check_tree(tree, styles, stats, with_model=True):
     from cobra import Metabolite, Model, Reaction
     from cobra.core.gene import GPR
@@ -74,6 +86,7 @@ def check_tree(tree, styles, stats, with_model=True):
     genes = sorted(ref_gpr.genes(tree))
     want = ref_gpr.table(tree)
     for style in styles:
+        ROUTE[0] = "text"
         text = render(tree, style)
         case = {"tree": _l(tree), "style": style}
         stats["evaluations"] = stats.get("evaluations", 0) + 1
@@ -82,6 +95,8 @@ def check_tree(tree, styles, stats, with_model=True):
             s = {"check": check, "style": style, "shape": shape_of(tree) if n_leaves(tree) <= 3 else "leaves=%d" % n_leaves(tree),
                  "awkward": any(g in AWKWARD for g in genes)}
             s.update(extra)
+            if ROUTE[0] != "text":
+                s["route"] = ROUTE[0]
             out.append((s, dict(case), f"text {text!r} tree {tree}\n{detail}"))
 
         try:
@@ -141,7 +156,12 @@ def check_tree(tree, styles, stats, with_model=True):
         if with_model and style in ("and/or", "&|"):
             for k in range(1, len(genes) + 1):
                 for R in itertools.combinations(genes, k):
-                    for rr, observed in ((False, False), (True, False), (False, True)):
+                    variants = [(False, False, "text"), (True, False, "text"), (False, True, "text")]
+                    if n_leaves(tree) >= 5:
+                        # the rule object reached the reaction through a conversion instead of the parser
+                        variants += [(False, False, "symbolic"), (False, False, "copy")]
+                    for rr, observed, route in variants:
+                        ROUTE[0] = route
                         stats["evaluations"] += 1
                         m = Model("m")
                         rx = Reaction("r1", lower_bound=0, upper_bound=10)
@@ -152,7 +172,12 @@ def check_tree(tree, styles, stats, with_model=True):
                         r0.add_metabolites({Metabolite("A", compartment="c"): 1})
                         with warnings.catch_warnings():
                             warnings.simplefilter("ignore")
-                            rx.gene_reaction_rule = text
+                            if route == "text":
+                                rx.gene_reaction_rule = text
+                            elif route == "symbolic":
+                                rx.gpr = GPR.from_symbolic(GPR.from_string(text).as_symbolic())
+                            else:
+                                rx.gpr = copy.deepcopy(GPR.from_string(text).copy())
                             r0.gene_reaction_rule = genes[0]
                             m.add_reactions([r0, rx])
                             if observed:
@@ -205,6 +230,7 @@ def check_tree(tree, styles, stats, with_model=True):
                             elif not (g2 == new):
                                 bad("after remove_genes, %s does not compare equal to the rule" % fname,
                                     f"R={R}: rule {new.to_string()!r}", remove_reactions=rr, observed=observed)
+    ROUTE[0] = "text"
     return out
 
 
@@ -278,6 +304,7 @@ def explore(ctx):
     for i in range(0, len(awk), chunk * 4):
         payloads.append({"kind": "trees", "trees": awk[i:i + chunk * 4], "styles": ["and/or", "AND/OR", "&|"],
                          "with_model": True})
+    payloads.append({"kind": "trees", "trees": SHARED, "styles": ["and/or"], "with_model": True})
     pair_fam = [t for t in fam if n_leaves(t) <= 2] + [t for t in small3 if n_leaves(t) == 3][:: (1 if ctx.thorough else 3)]
     for i in range(0, len(pair_fam), 60):
         # all pairs inside overlapping windows + cross pairs with the first block
